@@ -51,6 +51,11 @@ def loopN {σ : Type} : Nat → (Nat → σ → σ) → σ → σ
   | 0, _, s => s
   | k+1, f, s => f k (loopN k f s)
 
+/-- `while c: body` with a bound on the number of turns (`fuel`); the kernels' `while` loops end long before it -/
+def loopWhile {σ : Type} : Nat → (σ → Bool) → (σ → σ) → σ → σ
+  | 0, _, _, s => s
+  | k+1, c, f, s => if c s then loopWhile k c f (f s) else s
+
 /-- invariant rule for `loopN` -/
 theorem loopN_inv {σ : Type} (P : Nat → σ → Prop) (cnt : Nat) (f : Nat → σ → σ) (s : σ)
     (h0 : P 0 s) (hs : ∀ k s, k < cnt → P k s → P (k+1) (f k s)) : P cnt (loopN cnt f s) := by
